@@ -27,6 +27,11 @@ class Clock:
         return self.now
 
 
+class InjectedSocketError(BlockingIOError):
+    """A socket error that is not a timeout (EWOULDBLOCK in non-blocking use, a reset ...): the call may fail, the bytes
+    received so far must stay in the buffer, and the caller may try again."""
+
+
 class ScriptSocket:
     """recv script items: bytes (a delivered chunk), 'T' (socket.timeout), 'J' (the clock jumps past any deadline, then
     the next chunk is delivered normally).  After the script: EOF."""
@@ -60,6 +65,9 @@ class ScriptSocket:
                 self.items.pop(0)
                 self.clock.now += BIGDT
                 continue
+            if it == 'E':
+                self.items.pop(0)
+                raise InjectedSocketError(11, 'Resource temporarily unavailable (injected)')
             if len(it) <= n:
                 self.items.pop(0)
                 return it
@@ -75,6 +83,8 @@ class ScriptSocket:
             k = len(data)
         if k == 'T':
             raise socket.timeout('timed out')
+        if k == 'E':
+            raise InjectedSocketError(11, 'Resource temporarily unavailable (injected)')
         if k == 'J':
             self.clock.now += BIGDT
             k = len(data)
@@ -162,7 +172,7 @@ def do_call(bs, call, sock, max_retries):
             elif k == 'recv_close':
                 v = bs.recv_close()
             return ('ok', v), n_to
-        except sumod.Timeout:
+        except (sumod.Timeout, InjectedSocketError):
             n_to += 1
             if n_to > max_retries:
                 return ('exc', 'Timeout (still timing out after %d retries)' % max_retries), n_to
@@ -215,7 +225,7 @@ def run_recv(stream, items, recvsize, maxsize, program, timeout=10.0):
 def placements(nchunks, maxspecial):
     """Positions (before chunk i, i = nchunks meaning before EOF) x kind, for up to maxspecial timeouts/jumps."""
     out = [()]
-    slots = [(i, k) for i in range(nchunks + 1) for k in ('T', 'J')]
+    slots = [(i, k) for i in range(nchunks + 1) for k in ('T', 'J', 'E')]
     out += [(s,) for s in slots]
     if maxspecial >= 2:
         out += list(itertools.combinations_with_replacement(slots, 2))
@@ -308,7 +318,7 @@ def run_send(program, script, max_timeouts):
                 else:
                     ret = bs.flush()
                 break
-            except sumod.Timeout:
+            except (sumod.Timeout, InjectedSocketError):
                 if first and op[0] in ('send', 'sendall'):
                     accepted += op[1]
                 first = False
@@ -359,6 +369,7 @@ def send_shard(arg):
                     if n_special < max_timeouts:
                         stack.append(base + ['T'])
                         stack.append(base + ['J'])
+                        stack.append(base + ['E'])
     finally:
         sumod.time = saved_time
     return t
@@ -433,6 +444,42 @@ def ns_shard(payload_lists):
     return t
 
 
+def ns_maxsize_shard(arg):
+    """A reader built with a small maxsize that is raised per call (read_ns(maxsize=N)) or by setmaxsize(N): the length
+    prefix of a longer payload has more digits than the instance limit allowed for."""
+    mode, payload_len = arg
+    t = inputs.Tally()
+    sumod = su()
+    saved_time = sumod.time
+    try:
+        payload = (b'a:,1' * 8)[:payload_len]
+        wire = ns_encode(payload) + ns_encode(b'z')
+        for sizes in inputs.compositions(len(wire)):
+            if len(sizes) > 4 and len(sizes) < len(wire):     # up to three cuts, and one byte at a time
+                continue
+            clock = Clock(); sumod.time = clock
+            sock = ScriptSocket(build_items(wire, sizes, ()), clock)
+            ns = sumod.NetstringSocket(sock, maxsize=5)
+            got = []
+            try:
+                if mode == 'per-call':
+                    got.append(ns.read_ns(maxsize=100))
+                    got.append(ns.read_ns(maxsize=100))
+                else:
+                    ns.setmaxsize(100)
+                    got.append(ns.read_ns())
+                    got.append(ns.read_ns())
+            except Exception as e:
+                got.append('raised ' + type(e).__name__)
+            case = {'payloads': [payload, b'z'], 'chunks': sizes, 'reader_maxsize': 5, 'raised_to': 100, 'how': mode}
+            t.count(nontrivial=len(sizes) > 1, sample=case)
+            if got != [payload, b'z']:
+                t.bad('C12|netstring:read_ns(maxsize raised %s)|payloads read back' % mode, case, [payload, b'z'], got)
+    finally:
+        sumod.time = saved_time
+    return t
+
+
 # ----------------------------------------------------------------------------------------------------
 
 def run(ctx):
@@ -490,6 +537,9 @@ def run(ctx):
     inputs.run_shards(ctx, ns_shard, nshards, part='netstring', rule=(
         'payload list x partial-send patterns (<= 2 short answers) for write_ns, x every chunking of the wire bytes for '
         'read_ns; non-trivial = a partial send / more than one chunk'))
+    inputs.run_shards(ctx, ns_maxsize_shard, [(m, n) for m in ('per-call', 'setmaxsize') for n in (9, 10, 12)],
+                      part='netstring-maxsize', rule='payloads of 9-12 bytes read by a reader whose maxsize 5 is raised to '
+                      '100 per call / by setmaxsize, under every chunking with <= 3 cuts and one byte at a time')
     cov = ctx.coverage
     cov['rule'] = 'see parts; one evaluation = one execution of the real socket code against one scripted environment'
     cov['exhaustive'] = True
